@@ -133,9 +133,9 @@ func isPbGetter(v ssa.Value) (string, string, bool) {
 }
 
 func checkC12(c *Ctx, r *Report, tier string) {
-	r.Rule("C12.R1", "validation must-pass-through: from every RPC root of the three client services, every path to a proposer whose payload carries a vector, and to an index search, passes a dimension guard on that vector", 7)
+	r.Rule("C12.R1", "validation must-pass-through: from every RPC root of the three client services, every path to a proposer whose payload carries a vector, and to an index search, passes a dimension guard on that vector", 5)
 	r.Rule("C12.R2", "panic-capable constructs on untrusted operands reachable from an RPC root or an apply root need a dominating guard: Must-style helpers on request bytes, remainder/division by a stored count, rand.Intn(len) of a possibly empty list, &x[0] of a possibly empty vector, a write into a possibly nil request map, a make sized by a request number without upper bound", 12)
-	r.Rule("C12.R3", "apply-fatal parses are proposer-guaranteed: every id that an apply function parses with a fatal error path is, at every proposer of that message, produced by uuid.UUID.Bytes() or validated before the proposal", 6)
+	r.Rule("C12.R3", "apply-fatal parses are proposer-guaranteed: every id that an apply function parses with a fatal error path is, at every proposer of that message, produced by uuid.UUID.Bytes() or validated before the proposal", 4)
 	r.Rule("C12.R4", "the batch size cap dominates the fan-out on every public batch entry point", 3)
 	ro := discoverRoles(c)
 	var roots []*ssa.Function
@@ -205,8 +205,17 @@ func checkC12(c *Ctx, r *Report, tier string) {
 		})
 		return ok && n > 0
 	}
+	filters := batchFilterHelpers(c, guards)
 	guardAt := func(f *ssa.Function, site ssa.Instruction) bool {
 		res := false
+		eachInstr(f, func(i ssa.Instruction) {
+			if cl, ok := i.(*ssa.Call); ok && filters[cl.Call.StaticCallee()] && instrDominates(i, site) {
+				res = true
+			}
+		})
+		if res {
+			return true
+		}
 		eachInstr(f, func(i ssa.Instruction) {
 			cl, ok := i.(*ssa.Call)
 			if !ok || !guards[cl.Call.StaticCallee()] {
